@@ -36,7 +36,11 @@ class _NoPtr(object):
 esmtp.PtrLookup = _NoPtr
 ewsgi.PtrLookup = _NoPtr
 
-LOCALS = ['user', 'first.last', 'a+tag', '"quoted local"', '"a@b"', '"semi;colon"', 'x_y-z', '"dot."', u'gr\xfc\xdfe', u'名前', 'UPPER']
+LOCALS = ['user', 'first.last', 'a+tag', '"quoted local"', '"a@b"', '"semi;colon"', 'x_y-z', '"dot."', u'gr\xfc\xdfe', u'名前', 'UPPER',
+          # an escaped backslash inside a quoted local part, also as its last character (an escaped quote stays out: grey zone, DESIGN 7)
+          '"path\\\\"', '"c:\\\\dir"', '"a>b"', '"a<b>c"',
+          # atext that base64 renders with '+' and '/' (the HTTP hop carries addresses in base64), and the rest of atext
+          'ab~c', 'is?it', 'no~reply', 'x?y~z', "o'neil", 'a=b', '{curly}', 'a/b', 'a!b#c$d%e&f*g', 'q^r`s|t', u'\xff\xfe', u'\u00ffyl']
 DOMAINS = ['example.com', 'sub.Example.ORG', u'b\xfccher.example', 'x.y.z.example', '[192.0.2.1]']
 HEADERS = [b'Subject: t\r\n', b'Subject: t\r\nX-Long: ' + b'v' * 60 + b'\r\n folded\r\n', b'From: a@b\r\nTo: c@d\r\nSubject: =?utf-8?b?w6k=?=\r\n',
            b'X-Eight: \xc3\xa9\r\n', b'Received: from x\r\n\tby y\r\nReceived: from z\r\n']
